@@ -663,7 +663,8 @@ def check_c01(prop, tier):
         res.exhaustive = True
         docs = distinct_docs(emitted)
         # C01's quantifier has quotes, doubled quotes, newlines, '=', digits, Unicode - the format's own keywords are C02's
-        plans = [("plainwords", "plain"), ("plainuni", "nearint"), ("plainwords", "tiny"), ("uni", "plain"), ("plainwords", "thresh")] + \
+        plans = [("plainwords", "plain"), ("plainuni", "nearint"), ("plainwords", "tiny"), ("uni", "plain"), ("plainwords", "thresh"),
+                 ("ascii", "plain")] + \
                 ([("plainuni", "ints"), ("plainwords", "dyadic")] if tier == "thorough" else [])
         jobs, start = [], 0
         for lp, np_ in plans:
